@@ -399,6 +399,10 @@ def run(ctx):
     global _CTX                             # pylint: disable=global-statement
     _CTX = ctx
     part = core.Part()
+    if ctx.thorough and 32768 not in INTS:
+        # a wider argument alphabet (the tables below are built from INTS at call time)
+        INTS.extend([-32768, -2, 3, 4, 8, 9, 10, 99, 100, 1000, 32767, 32768, 1 << 24])
+        INTS.sort()
     ltab, etab = legacy_table(ctx), ebb3_table(ctx)
     # introspection: every helper must have a documented format in the table
     for name in legacy_helpers():
